@@ -166,6 +166,7 @@ func ExploreSchedules(w *Worker, cfg SchedConfig, body func() SchedOutcome) int6
 		}
 	}
 	explore(nil, true)
+	w.Count("executions:"+cfg.Harness, int(execs))
 	w.Max("decisions_per_execution", maxDec)
 	w.Max("steps_per_execution", maxSteps)
 	return execs
